@@ -27,7 +27,7 @@ def claims_pred(field):
 
 
 KB_OPQ = (r"decode_compact_serialization$|serde_json::de::from_slice$|determine_hasher$|encoded_digest$|::join$|JwsValidationItem::verify$|Timestamp::from_unix$|Timestamp::now_utc$|"
-          r"DIDUrl::parse$|CoreDocument::resolve_method$|MethodData::public_key_jwk$|VerificationMethod::data$|alloc::fmt::format$")
+          r"DIDUrl::parse$|CoreDocument::resolve_method$|MethodData::public_key_jwk$|VerificationMethod::data$")
 
 
 def _kb_jwt_sym(F, r3, kfn):
@@ -97,19 +97,17 @@ def _kb_jwt_sym(F, r3, kfn):
                         dh = [e for e in q.calls(r"determine_hasher$") if q.succeeded(e) is True and SR.derives(hs, e.result.t)]
                         r3.require(bool(dh) and any(SR.derives(dh[0].args[1], e.result.t) for e in sd_dec), (kfn, "hasher"), "the hasher is not determined from the claims of sd_jwt.jwt")
                         pt = sym.term(pl)
-                        tmpl = ("list",) + tuple(("lit", x) for x in (192, 1, 126, 192, 1, 126, 0))
-                        fm = [x for x in sym.subterms(pt) if isinstance(x, tuple) and x[:1] == ("call",) and x[1].endswith("Arguments::new")]
+                        # the hashed text is exactly  jwt ++ "~" ++ join(disclosures, "~") ++ "~"
                         good = False
-                        for x in fm:
-                            args = x[2]
-                            if len(args) == 2 and args[0] == tmpl and args[1][:1] == ("list",) and len(args[1]) == 3:
-                                a0, a1 = args[1][1], args[1][2]
-                                DISC = SR.fld("disclosures", base=SDJ)
+                        DISC = SR.fld("disclosures", base=SDJ)
+                        for x in [z for z in sym.subterms(pt) if isinstance(z, tuple) and z[:1] == ("concat",)]:
+                            pcs = x[1]
+                            if len(pcs) == 4 and pcs[0][0] == "arg" and pcs[1] == ("lit", "~") and pcs[2][0] == "arg" and pcs[3] == ("lit", "~"):
+                                a0, a1 = pcs[0][1], pcs[2][1]
                                 joins = [z for z in sym.subterms(a1) if isinstance(z, tuple) and z[:1] == ("call",) and z[1].endswith("::join")]
                                 # every disclosure, in the order presented, exactly once each as presented: join("~") directly over the list
-                                exact = len(joins) == 1 and len(joins[0][2]) == 2 and joins[0][2][0] in (("iter", DISC), DISC) and joins[0][2][1] == ("lit", "~")
-                                plain0 = all(not (isinstance(z, tuple) and z[:1] == ("call",) and not z[1].endswith("Argument::new_display")) for z in sym.subterms(a0))
-                                good = SR.derives(a0, SR.fld("jwt", base=SDJ)) and plain0 and exact
+                                exact = len(joins) == 1 and len(joins[0][2]) == 2 and joins[0][2][0] in (("iter", DISC), DISC) and joins[0][2][1] == ("lit", "~") and SR.pure(a1, joins[0])
+                                good = SR.pure(a0, SR.fld("jwt", base=SDJ)) and exact
                         r3.require(good, (kfn, "hash-payload"), "the digest is not computed over `{sd_jwt.jwt}~{disclosures joined by ~}~`: %s" % sym.fmt(pt)[:200])
                     # nonce / aud
                     for opt, err in (("nonce", "InvalidNonce"), ("aud", "AudianceMismatch")):
